@@ -11,6 +11,7 @@ Search : sandwich  Must ⊆ code ⊆ May  of the executable path specification o
          exclusion patterns behave as if DOTGLOB were set; emptiness for dot-free patterns.
 """
 from __future__ import annotations
+import os
 import warnings
 
 import common
@@ -173,6 +174,108 @@ def run(ck: Check) -> int:
                 sr.samples.append({'pattern': p, 'flags': hex(fl)})
         sr.note = 'same sandwich in fnmatch mode (single segment) on every name <= 3 over "a.b" that begins with a dot'
     ck.search('hidden-sandwich-fnmatch', s_fn)
+
+    # ---- real trees containing dot files / dot directories / dot-named links (added after seeded
+    # change C03b: the walker descended a *hidden symlink* to a directory under `**` with FOLLOW)
+    import k5_glob as K
+    from wcmatch import wcmatch as WM, pathlib as WP, util as U
+    tree_found: list = []
+    tstats = {'results_checked': 0, 'hidden_results_granted_by_written_dot': 0, 'wcmatch_runs': 0, 'pathlib_runs': 0}
+    SAFE = ['**', '**/*', '*', '*/*', '*/**', '**/a', '**/*/', '?', '?*', '[!x]*', '+(a|b)', '!(x)', '**/!(x)', 'a/**', '*/**/b',
+            '**/b/**', '@(a|b|*)', '**/[ab]', '***', '***/a', '***/*', '*/', '**/', 'a/*', '**/?', '**/a/*']
+    DOTTED = ['.h/**', '.h/*', '**/.h', '.l/**', '.l/*', '**/.l/*', '.*', '**/.*', '.h/a', '.f', '**/.f']
+
+    def _dot_spec(R_):
+        spec = [('a', 'dir', ''), ('.h', 'dir', ''), ('a/.h', 'dir', ''), ('a/b', 'dir', ''), ('.h/a', 'file', ''), ('a/.h/b', 'file', ''),
+                ('a/b/a', 'file', ''), ('.f', 'file', ''), ('a/.f', 'file', ''), ('b', 'file', '')]
+        # dot-named links: to a directory, to a hidden directory, to a file, to nowhere; a visible link to a hidden dir
+        opts = [('.l', 'link', 'a'), ('a/.l', 'link', 'b'), ('a/b/.l', 'link', '../../a/b'), ('.lf', 'link', 'b'), ('.ld', 'link', 'nowhere'),
+                ('vl', 'link', '.h'), ('a/vl', 'link', '../.h'), ('a/b/.h', 'dir', ''), ('a/b/.h/a', 'file', ''), ('.l2', 'link', '.h')]
+        for o in opts:
+            if R_.random() < 0.6:
+                spec.append(o)
+        return spec
+
+    def _tcases(R_, t):
+        out = []
+        for _ in range(10 if quick else 30):
+            dotted = R_.random() < 0.25
+            p = R_.choice(DOTTED if dotted else SAFE)
+            fl = G.GLOBSTAR if R_.random() < 0.85 else 0
+            for nm, pr in (('FOLLOW', 0.5), ('GLOBSTARLONG', 0.3), ('EXTGLOB', 1.0), ('MARK', 0.2), ('NODIR', 0.1), ('MATCHBASE', 0.15),
+                           ('NOUNIQUE', 0.1), ('IGNORECASE', 0.1)):
+                if R_.random() < pr:
+                    fl |= getattr(G, nm)
+            if '***' in p:
+                fl |= G.GLOBSTARLONG
+            if fl & G.MATCHBASE and p in ('**', '***'):
+                fl &= ~G.MATCHBASE          # KF-D6 (implicit prefix + pattern-initial globstar) is searched by the sandwich above
+            out.append(K.Case(p, fl, None, R_.choice(['root_dir', 'root_dir', 'cwd', 'dir_fd', 'bytes'])))
+        return out
+
+    def _hidden_seg(path: str) -> bool:
+        return any(s.startswith('.') for s in path.split('/') if s)
+
+    def _on_case(t, c, st, ev, ms, mev):
+        if st != 'ok':
+            return
+        res = [p_ for k_, p_ in ev if k_ == 'y']
+        tstats['results_checked'] += len(res)
+        dotfree = '.' not in c.pats
+        for r_ in res:
+            if _hidden_seg(r_):
+                if dotfree:
+                    tree_found.append(Failing(f'glob({c.pats!r}) returned {r_!r}: a hidden segment although the pattern contains no written dot',
+                                              {**c.to_json(G, t), 'path': r_}, 'no result with a segment beginning with "."', r_,
+                                              'wcmatch/glob.py:_glob_dir/_iter hidden filter'))
+                else:
+                    tstats['hidden_results_granted_by_written_dot'] += 1
+        # the same pattern through pathlib and WcMatch (dot-free patterns only)
+        if dotfree and c.mode == 'root_dir':
+            pfl = c.flags & ~(G.MARK | G.NOUNIQUE)
+            try:
+                with common.time_limit(10):
+                    pl = [str(q.relative_to(t.root)) for q in WP.Path(t.root).glob(c.pats, flags=pfl)]
+                    pr = [str(q.relative_to(t.root)) for q in WP.Path(t.root).rglob(c.pats, flags=pfl)] if c.pats not in ('**', '***') else []
+                tstats['pathlib_runs'] += 1
+                for api_, lst in (('Path.glob', pl), ('Path.rglob', pr)):
+                    for r_ in lst:
+                        if _hidden_seg(r_):
+                            tree_found.append(Failing(f'{api_}({c.pats!r}) returned {r_!r}: a hidden segment, dot-free pattern',
+                                                      {**c.to_json(G, t), 'api': 'pathlib.' + api_, 'path': r_}, 'none', r_))
+            except (common.CallTimeout, ValueError):
+                pass
+            if '/' not in c.pats and '**' not in c.pats and not (c.flags & G.MATCHBASE):
+                try:
+                    with common.time_limit(10):
+                        wfl = WM.RECURSIVE | (WM.SYMLINKS if c.flags & G.FOLLOW else 0) | (WM.EXTMATCH if c.flags & G.EXTGLOB else 0)
+                        wr = [os.path.relpath(x, t.root) for x in WM.WcMatch(t.root, c.pats, flags=wfl).match()]
+                    tstats['wcmatch_runs'] += 1
+                    for r_ in wr:
+                        if _hidden_seg(r_):
+                            tree_found.append(Failing(f'WcMatch({c.pats!r}) without HIDDEN returned {r_!r}',
+                                                      {**c.to_json(G, t), 'api': 'wcmatch.WcMatch', 'path': r_}, 'none', r_))
+                except common.CallTimeout:
+                    pass
+
+    def s_k5(sr):
+        sr.note = ('K5 on dot-heavy trees (hidden files, hidden directories at three depths, dot-named links to a directory / a hidden '
+                   'directory / a file / nowhere, visible links to hidden directories): iglob events vs the Lean walker, '
+                   'FOLLOW in half of the runs, `***`, MATCHBASE, all root mechanisms')
+        K.k5_loop(sr, drv, G, W, U, R, 60 if quick else 600, _tcases, _on_case, spec_for=_dot_spec)
+    if drv:
+        ck.stream('K5-dot-trees', s_k5)
+
+    def s_tree(sr):
+        sr.note = ('the property on real trees: for a pattern with no written dot, no glob / iglob / Path.glob / Path.rglob / WcMatch '
+                   '(no HIDDEN) result has a segment beginning with "." (exact emptiness), DOTGLOB off; results with hidden segments '
+                   'for patterns that write the dot are counted')
+        sr.histogram = dict(tstats)
+        sr.evaluations = tstats['results_checked'] + tstats['pathlib_runs'] + tstats['wcmatch_runs']
+        sr.distinct = tstats['pathlib_runs']
+        for f in tree_found:
+            ck.report(f, None)
+    ck.search('hidden-on-real-trees', s_tree)
     if drv:
         drv.close()
     return ck.finish()
